@@ -103,6 +103,25 @@ Definition col_optional (c : col) : bool :=
 
 Definition is_some {T} (o : option T) : bool := match o with Some _ => true | None => false end.
 
+(* the affiliate column (tx_csv.rs, after fix 96161d9): a blank cell on a
+   Split row means "all affiliates", so a split for all affiliates does not
+   need the column by itself; the column is needed when a row names an
+   affiliate other than the default one, or when a split addressed to the
+   default affiliate has to be told apart from a split for all affiliates *)
+Definition v_is_split (v : csvtx) : bool := match v_act v with Some ASplit => true | _ => false end.
+Definition af_global_split (v : csvtx) : bool :=
+  match v_af v with Some a => v_is_split v && aff_is_global a | None => false end.
+Definition af_named (dflt : affdata) (v : csvtx) : bool :=
+  match v_af v with
+  | Some a => negb (v_is_split v && aff_is_global a) && negb (affdata_eqb a dflt)
+  | None => false
+  end.
+Definition af_default_split (dflt : affdata) (v : csvtx) : bool :=
+  match v_af v with
+  | Some a => negb (v_is_split v && aff_is_global a) && affdata_eqb a dflt && v_is_split v
+  | None => false
+  end.
+
 (* which optional columns are in use *)
 Definition col_in_use (dflt : affdata) (txs : list csvtx) (c : col) : bool :=
   match c with
@@ -111,7 +130,8 @@ Definition col_in_use (dflt : affdata) (txs : list csvtx) (c : col) : bool :=
   | KCfx => existsb (fun v => is_some (v_cfx v)) txs
   | KSfl => existsb (fun v => is_some (v_sfl v)) txs
   | KRatio => existsb (fun v => is_some (v_ratio v)) txs
-  | KAf => existsb (fun v => match v_af v with Some a => negb (affdata_eqb a dflt) | None => false end) txs
+  | KAf => existsb (af_named dflt) txs
+           || (existsb af_global_split txs && existsb (af_default_split dflt) txs)
   | _ => false
   end.
 Definition table_header (dflt : affdata) (txs : list csvtx) : list col :=
@@ -136,7 +156,7 @@ Definition cell (v : csvtx) (c : col) : bytes :=
   | KSfl => oshow show_sfl (v_sfl v)
   | KRatio => oshow show_ratio (v_ratio v)
   | KAf => oshow a_name (v_af v)
-  | KMemo => oshow (fun s => s) (v_memo v)
+  | KMemo => oshow trim (v_memo v)      (* written trimmed (fix cd7192e) *)
   | KLegacy => []   (* panic!("Invalid col") in the Rust; never in the header *)
   end.
 
@@ -397,8 +417,10 @@ Definition date_eqb (a b : date) : bool :=
   (dt_y a =? dt_y b) && (dt_m a =? dt_m b) && (dt_d a =? dt_d b).
 Definition s_default_id : bytes := lower s_default.
 Definition aff_is_default (a : affdata) : bool := beqb (a_id a) s_default_id.
-(* no transaction names an affiliate other than the default one *)
-Definition no_named_affiliate (txs : list ctx) : bool := forallb (fun t => aff_is_default (x_af t)) txs.
+(* no transaction names an affiliate other than the default one (a split
+   for all affiliates names none) *)
+Definition no_named_affiliate (txs : list ctx) : bool :=
+  forallb (fun t => aff_is_default (x_af t) || (is_xsplit (x_act t) && aff_is_global (x_af t))) txs.
 (* [t'] is [t] read back: same security, dates, action with numerically equal
    decimals (same sign), same currencies, same force flag and integer-only
    flag, memo trimmed, same affiliate - except that a split of the default
@@ -423,14 +445,3 @@ Fixpoint forall2b {T} (f : T -> T -> bool) (a b : list T) : bool :=
   | x :: a', y :: b' => f x y && forall2b f a' b'
   | _, _ => false
   end.
-
-(* the classes on which the second-generation bytes differ from the first:
-   a split of the default affiliate in a list that names no other affiliate
-   (it comes back as a split of all affiliates and the second write has an
-   affiliate column holding __global__), and *)
-Definition K_default_split (txs : list ctx) : bool :=
-  no_named_affiliate txs && existsb (fun t => is_xsplit (x_act t)) txs.
-(*
-   a memo with surrounding white space (written as is, read trimmed) *)
-Definition K_memo_untrimmed (txs : list ctx) : bool :=
-  existsb (fun t => negb (beqb (trim (x_memo t)) (x_memo t))) txs.
